@@ -5,15 +5,20 @@ from .sqlgen import query_sql
 
 
 def mk_case(doc, q, mode="seq", wrapped=False, pg=False, arr=False, consts=None, sql=None, tag=None,
-            order_keys=None, source_rows=None):
-    return {"doc": doc, "q": q, "mode": mode, "wrapped": wrapped, "pg": pg, "arr": arr, "consts": consts,
+            order_keys=None, source_rows=None, num_kind=None, vars=None):
+    return {"num_kind": num_kind, "vars": vars, "doc": doc, "q": q, "mode": mode, "wrapped": wrapped, "pg": pg, "arr": arr, "consts": consts,
             "sql": sql if sql is not None else query_sql(q), "tag": tag, "order_keys": order_keys,
             "source_rows": source_rows}
 
 
 def go_req(c):
-    return {"op": "query", "doc": enc_val(c["doc"]), "sql": c["sql"], "wrapped": c["wrapped"], "pg": c["pg"],
-            "arr": c["arr"], "consts": enc_val(c["consts"]) if c["consts"] is not None else None}
+    r = {"op": "query", "doc": enc_val(c["doc"]), "sql": c["sql"], "wrapped": c["wrapped"], "pg": c["pg"],
+         "arr": c["arr"], "consts": enc_val(c["consts"]) if c["consts"] is not None else None}
+    if c.get("num_kind"):
+        r["numKind"] = c["num_kind"]
+    if c.get("vars") is not None:
+        r["vars"] = enc_val(c["vars"])
+    return r
 
 
 def lean_req(c, asis=False):
@@ -60,6 +65,8 @@ def classify(c, g, l):
     """-> ('pass'|'skip'|'mismatch', detail)"""
     if l["r"] == "oom":
         return "skip", "out-of-model"
+    if g["r"] == "aborted":
+        return "skip", "aborted"
     if g["r"] in ("crash", "hang", "panic"):
         return "mismatch", "impl " + g["r"]
     if l["r"] in ("error", "panic"):
@@ -124,7 +131,7 @@ def run_cases(chk, cases, nontrivial=None, known_switch_ids=None, label=""):
     for c, g, l, detail in mism[:3]:
         chk.add_violation("correspondence", {
             "sql": c["sql"], "doc": c["doc"], "q": c["q"], "opts": {k: c[k] for k in ("wrapped", "pg", "arr")},
-            "consts": c["consts"], "mode": c["mode"], "order_keys": c.get("order_keys"),
+            "consts": c["consts"], "mode": c["mode"], "order_keys": c.get("order_keys"), "num_kind": c.get("num_kind"), "vars": c.get("vars"),
             "detail": detail, "impl": g, "model": l})
     if len(mism) > 3:
         chk.count(label + "further-mismatches", len(mism) - 3)
